@@ -166,6 +166,31 @@ def reference_vectors(run):
                 break
 
 
+def truncated_vectors(run, tier):
+    """A stream that ends early is an IOError wherever it is cut - also at ragged byte offsets beyond the first 16 KiB
+    read, where the word reader refills its buffer (the specification's streams are all shorter than one read)."""
+    audio = os.path.join(os.path.dirname(common.REPO_SRC), "tests", "audio")
+    for name in ("123_1pcle", "123_2ulaw") if tier == "quick" else ("123_1pcbe", "123_1pcle", "123_1ulaw", "123_2pcbe", "123_2pcle", "123_2ulaw"):
+        b = open(os.path.join(audio, name + "_shn.sph"), "rb").read()
+        hs, n = int(b.split(b"\n")[1]), len(b)
+        cuts = {hs + 5, hs + 6, hs + 100, hs + 4097, hs + 16384, hs + 16385, n - 1, n - 2, n - 5, n - 1000}
+        for k in range(0, 12 if tier == "quick" else 40):
+            for r in (0, 1, 2, 3):
+                cuts.add(hs + 16384 + 1021 + 1024 * k + r)
+        for c in sorted(x for x in cuts if hs + 5 <= x < n):
+            run.evaluations += 1
+            try:
+                with warnings.catch_warnings():
+                    warnings.simplefilter("ignore")
+                    util.read_signal(io.BytesIO(b[:c]), force_as="sph")
+                run.violation({"kind": "truncated_stream_accepted", "vector": name, "data_bytes_kept": c - hs, "of": n - hs})
+            except IOError:
+                pass
+            except Exception as e:
+                run.violation({"kind": "truncated_stream_wrong_exception", "vector": name, "data_bytes_kept": c - hs, "of": n - hs,
+                               "raised": type(e).__name__, "error": repr(e)[:200]})
+
+
 def spec_on_vectors(run, tier, ulaw):
     """spec <- real data: TLC runs the specification's decoder on the first commands of the shipped vectors."""
     audio = os.path.join(os.path.dirname(common.REPO_SRC), "tests", "audio")
@@ -259,6 +284,16 @@ def run(tier, seed):
                     cmds[c] = cmds.get(c, 0) + 1
     finally:
         shutil.rmtree(tmp, ignore_errors=True)
+    # the fixed corpus exported earlier from the same specification (harness/data/shorten_corpus.json; C11 replays it too)
+    corpus = json.load(open(os.path.join(os.path.dirname(os.path.abspath(__file__)), "data", "shorten_corpus.json")))["behaviours"]
+    tmp2 = tempfile.mkdtemp(prefix="verif_c13c_")
+    try:
+        for k, beh in enumerate(corpus):
+            if check_behaviour(run, k + 1, beh, ulaw, tmp2, rng):
+                used += 1
+    finally:
+        shutil.rmtree(tmp2, ignore_errors=True)
+    run.extra["corpus_behaviours_replayed"] = len(corpus)
     run.traces += used
     names = {0: "DIFF0", 1: "DIFF1", 2: "DIFF2", 3: "DIFF3", 4: "QUIT", 5: "BLOCKSIZE", 6: "BITSHIFT", 7: "QLPC", 8: "ZERO"}
     run.extra["commands_replayed"] = {names[c]: n for c, n in sorted(cmds.items())}
@@ -281,6 +316,7 @@ def run(tier, seed):
     b = behs[0]
     run.sample({"hdr": b["hdr"], "commands": b["note"], "n_bits": len(b["bits"]), "samples": b["data"]})
     reference_vectors(run)
+    truncated_vectors(run, tier)
     spec_on_vectors(run, tier, ulaw)
     run.not_decided.append("mu-law streams with a bit shift > 0 (rows 1-12 of shorten's own outward table have no independent definition offline): not generated")
     run.extra["rule"] = "exhaustive tiny instances + %d simulated behaviours (versions 1-2, S16HL/S16LH/AU1/AU2, 1-3 channels, block sizes 1-8 with shrinking changes, nmean 0-4, maxnlpc 0-3, bit shifts 0-3)" % len(behs)
